@@ -1671,6 +1671,14 @@ def _hasattr(obj, name):
         return False
 
 
+def _vars(obj):
+    """vars(instance): the instance's own attributes by name (dataclass / equinox fields in declaration order)"""
+    from .interp import Inst
+    if isinstance(obj, Inst):
+        return dict(obj.fields)
+    raise Top(f"vars() of {type(obj).__name__}")
+
+
 def _len(x):
     if isinstance(x, SymShape):
         return Sym('.ndim', x.s)
@@ -1916,7 +1924,7 @@ def make_world_externals(world_ref):
         range=_range, len=_len, tuple=tuple, list=list, dict=dict, set=set, frozenset=frozenset, enumerate=enumerate,
         zip=zip, isinstance=isinstance_, type=type_, int=_int, float=_float, str=str, bool=bool,
         max=_max, min=_min, any=any, all=all, sum=_sum_builtin, abs=_abs, sorted=sorted, reversed=reversed,
-        map=map, filter=filter, print=_print, getattr=_getattr, hasattr=_hasattr, setattr=_setattr, issubclass=_issubclass, callable=callable, slice=slice,
+        map=map, filter=filter, print=_print, getattr=_getattr, hasattr=_hasattr, vars=_vars, setattr=_setattr, issubclass=_issubclass, callable=callable, slice=slice,
         ValueError=ValueError, NotImplementedError=NotImplementedError, KeyError=KeyError, IndexError=IndexError,
         AttributeError=AttributeError, TypeError=TypeError, RuntimeError=RuntimeError, AssertionError=AssertionError,
         Exception=Exception, UserWarning=UserWarning, DeprecationWarning=DeprecationWarning,
